@@ -29,7 +29,8 @@ META = {
              ' 0, independent index / data shard encodings; sub-check many'
              '_shards: thousands of one-voxel chunks over more than 1024 s'
              'hard files.'
-             " Round 12: windows exactly as wide as the output range that start elsewhere (pure shifts), in-memory image objects, and the exhaustive sub-check option_grid (layout x stored type x output type x window class x header scaling / ignore x entry point, ~5000 tiny cases)."),
+             " Round 12: windows exactly as wide as the output range that start elsewhere (pure shifts), in-memory image objects, and the exhaustive sub-check option_grid (layout x stored type x output type x window class x header scaling / ignore x entry point, ~5000 tiny cases)."
+             " Round 21: a file loaded by the caller with nibabel, whose values the caller has read (get_fdata) before handing the image object over."),
     "trusted_base": ["nibabel writes the input (stored array and header "
                      "scaling re-read and verified as a precondition)",
                      "vlib/refs/dtype_ref.py, Fraction arithmetic"],
@@ -135,7 +136,8 @@ def cases(draw):
         "content": draw(st.sampled_from(["position", "position", "limits"])),
         "seed": draw(st.integers(0, 2 ** 31)),
         "big_endian": draw(st.integers(0, 3)) == 0,
-        "via": draw(st.sampled_from(["api", "cli", "api", "cli", "image"])),
+        "via": draw(st.sampled_from(["api", "cli", "api", "cli", "image",
+                                     "loaded"])),
     }
 
 
@@ -285,6 +287,9 @@ def check_case(ctx, case):
             ctx.count("excluded_jpeg_rescaled")
             return None
         in_memory = case.get("via") == "image" and case["layout"] != "rgb"
+        if case.get("via") == "loaded" and case["layout"] == "rgb":
+            # (the channels of RGB files are split by the file-level call)
+            case = dict(case, via="api")
         if in_memory:
             # an image object that was never a file: no header scaling
             case = dict(case, scaling=None)
@@ -323,6 +328,24 @@ def check_case(ctx, case):
                     from neuroglancer_scripts import accessor, precomputed_io
                     img = nibabel.Nifti1Image(
                         raw, np.diag([1.0, 1.0, 1.0, 1.0]), dtype=raw.dtype)
+                    writer = precomputed_io.get_IO_for_existing_dataset(
+                        accessor.get_accessor_for_url(dest, options))
+                    rc = volume_reader.nibabel_image_to_precomputed(
+                        img, writer, case["ignore_scaling"],
+                        None if mm is None else mm[0],
+                        None if mm is None else mm[1],
+                        not case["mmap"], options)
+                elif case.get("via") == "loaded":
+                    # the caller loads the file with nibabel, looks at the
+                    # values through nibabel's own interface (which keeps
+                    # them in the image's cache) - e.g. to choose the
+                    # intensity window - and hands the image object over
+                    import nibabel
+                    from neuroglancer_scripts import accessor, precomputed_io
+                    img = nibabel.load(path)
+                    if case["seed"] % 4 != 3:
+                        img.get_fdata()
+                        ctx.count("image_values_read_by_caller_first")
                     writer = precomputed_io.get_IO_for_existing_dataset(
                         accessor.get_accessor_for_url(dest, options))
                     rc = volume_reader.nibabel_image_to_precomputed(
@@ -495,8 +518,9 @@ def grid_cases():
                                       ([0.5, 0.0], True)):
                         if layout == "rgb" and scal is not None:
                             continue
-                        for via in ("api", "cli", "image"):
-                            if layout == "rgb" and via == "image":
+                        for via in ("api", "cli", "image", "loaded"):
+                            if layout == "rgb" and via in ("image",
+                                                           "loaded"):
                                 continue
                             k += 1
                             acc = ("deep_gz", "flat", "sharded", "deep",
